@@ -61,7 +61,7 @@ def score_ballots(draw, cands, L, k):
 
 
 @st.composite
-def case(draw, rules=None):
+def case(draw, rules=None, big=False):
     rule = draw(st.sampled_from(rules or (E.RANKING_RULES + E.SCORE_RULES[:5])))
     tie_rich = draw(st.integers(0, 2)) == 0
     cfg = {}
@@ -90,7 +90,7 @@ def case(draw, rules=None):
         order = draw(st.permutations(cands))
         return {"rule": rule, "cands": list(order), "ballots": ballots, "cfg": cfg, "rng": draw(S.rng_spec())}
     tied = rule in E.TIES_OK and draw(st.booleans())
-    maxc = 5 if rule in ("DominatingSets", "CondoBorda") else 6
+    maxc = 5 if rule in ("DominatingSets", "CondoBorda") else (8 if big else 6)
     minc = 2 if rule == "TopTwo" else 1
     weights = "mixed"
     transfer = "fractional"
@@ -100,7 +100,7 @@ def case(draw, rules=None):
         weights = "int"
     if rule == "PluralityVeto":
         weights = "small"
-    prof = draw(S.ranked_profile(minc, maxc, 8, tied=tied, weights=weights, tie_rich=tie_rich))
+    prof = draw(S.ranked_profile(minc, maxc, 12 if big else 8, tied=tied, weights=weights, tie_rich=tie_rich))
     n = len(prof["cands"])
     cfg["m"] = draw(st.integers(1, n))
     if rule not in ("DominatingSets", "CondoBorda", "RandomDictator", "BoostedRandomDictator"):
@@ -121,7 +121,7 @@ def case(draw, rules=None):
 
 
 def strategy(tier):
-    return case()
+    return case() if tier == "quick" else st.one_of(case(), case(big=True))
 
 
 def exhaustive(tier):
